@@ -551,6 +551,9 @@ func genArgs(r *Rng, fn string, arity int) []c08Arg {
 			v = Pick(r, []string{"a", "ab", "", "-", " "})
 		default:
 			v = pickVal(r, 6, 2, 4)
+			if compared[fn] && len(v) > 1000 { // outputs of these are evaluated by the model too: keep vm_compute cheap
+				v = v[:600]
+			}
 		}
 		cst := constSafe(v) && len(v) < 200 && r.Chance(1, 2)
 		if (fn == "repeat" && i == 0) || (fn == "color" && i == 0) || (fn == "bar" && i >= 1) || ((fn == "bucket" || fn == "bucketrange" || fn == "clamp") && i >= 1) {
@@ -858,7 +861,7 @@ func textTags(t string) []string {
 				break
 			}
 		}
-		if strings.Contains(t, "{lt {0} x}") {
+		if strings.Contains(t, "{lt {0} x}") || (strings.Contains(t, "{0}a") && strings.Contains(t, "{lim}")) {
 			tags = append(tags, "kf:C08-for-output-unbounded")
 		}
 	} else if sub {
